@@ -71,7 +71,7 @@ func genC18Case(t *rapid.T) *C18Case {
 		}
 		b.T, b.Val = desc.Scalar("string"), desc.Str(s)
 	} else {
-		b.T, b.Val = desc.Scalar(kind), genScalar(t, kind, "v", false)
+		b.T, b.Val = desc.Scalar(kind), genScalar(t, kind, "v", true) // zero values (incl. -0.0) take the zero-skip path in every carrier
 	}
 	n := rapid.IntRange(1, 4).Draw(t, "nRules")
 	m, hasM := measureOf(kind, b.Val)
@@ -122,6 +122,10 @@ func genC18Case(t *rapid.T) *C18Case {
 	}
 	c.Pos = rapid.IntRange(0, k).Draw(t, "urlPos")
 	b.T = maybeNamedDeep(t, b.T)
+	if rapid.IntRange(0, 3).Draw(t, "decoy") == 0 {
+		// (tag carrier only) an earlier call on the same struct type with another per-call rule
+		b.Decoy = rapid.SampledFrom([]string{"required", "to=1~3|decoy", "ge=2", "phone|诱饵"}).Draw(t, "decoyRule")
+	}
 	return c
 }
 
